@@ -392,7 +392,7 @@ func runScript(c Case) (out Out) {
 		case "tick":
 			tk.c <- time.Now()
 			wheel.RemoveTimer(sentinel) // processed by the wheel's loop after the tick
-			if !hx.Quiesce(busy, 10*time.Second) {
+			if !hx.Quiesce(busy, 30*time.Second) {
 				out.Err = "cleaner did not quiesce"
 				return
 			}
@@ -430,6 +430,6 @@ func runScript(c Case) (out Out) {
 	// leave no timer behind for the next case
 	wheel.Drain(func(k, v any) {})
 	wheel.RemoveTimer(sentinel)
-	hx.Quiesce(busy, 10*time.Second)
+	hx.Quiesce(busy, 30*time.Second)
 	return
 }
